@@ -1,4 +1,7 @@
 import Gv.Model.Mask
+import Gv.Spec.Mask
+import Gv.Proofs.MaskOcc
+import Gv.Proofs.Majority
 /-!
 # C15 — masking rewrites exactly the selected residues and nothing else
 -/
@@ -98,9 +101,300 @@ theorem repChar_spec :
     (∀ a, repChar a .gap = some GAP) ∧ (∀ a c, repChar a (.char c) = some c) ∧ (∀ a, repChar a .bad = none) := by
   refine ⟨by decide, by decide, by decide, fun _ => rfl, fun _ _ => rfl, fun _ => rfl⟩
 
+
+/-! ## the column majority (mode MAJ of `Mask` and `MaskOccurences`) -/
+
+open Gv.Spec Gv.Proofs.MaskOcc Gv.Proofs.Majority
+
+/-- **MAJ: the replacement is the most frequent residue of the column, the lowest byte on ties**
+(`majorityChar` mirrors the `num > max` scan over `occurences[0..129]`): it occurs in the column, no byte
+the table can count is more frequent, and every equally frequent one is not smaller.  The incoming
+value `d` plays no role. -/
+theorem majority_replacement (col : List Byte) (d : Byte) (h : ∃ c ∈ col, c.toNat < 130) :
+    majorityChar col d ∈ col ∧ (majorityChar col d).toNat < 130 ∧
+    (∀ c : Byte, c.toNat < 130 → col.count c ≤ col.count (majorityChar col d)) ∧
+    (∀ c : Byte, c.toNat < 130 → col.count c = col.count (majorityChar col d) → majorityChar col d ≤ c) ∧
+    (∀ d', majorityChar col d' = majorityChar col d) :=
+  let ⟨a, b, c, e⟩ := majorityChar_spec col d h
+  ⟨a, b, c, e, fun d' => majorityChar_indep col d' d h⟩
+
+/-- the replacement character of `Mask` in every mode: N / X by alphabet, a gap, the given character, or
+(MAJ) the column majority of *all* rows, whatever is protected -/
+theorem mask_replacement_char (rows : CRows) (alphabet : Nat) (mr : MaskRep) (rep0 : Byte) (i : Nat)
+    (h : repChar alphabet mr = some rep0) :
+    (mr = .ambig → alphabet = AMINOACIDS → repAt rows mr rep0 i = 88) ∧
+    (mr = .ambig → alphabet = NUCLEOTIDS → repAt rows mr rep0 i = 78) ∧
+    (mr = .gap → repAt rows mr rep0 i = GAP) ∧
+    (∀ c, mr = .char c → repAt rows mr rep0 i = c) ∧
+    (mr = .maj → repAt rows mr rep0 i = majorityChar (columnAt rows i) POINT) := by
+  refine ⟨?_, ?_, ?_, ?_, ?_⟩
+  · intro e1 e2; subst e1 e2
+    have : rep0 = 88 := by simpa [repChar] using h.symm
+    simp [repAt, this]
+  · intro e1 e2; subst e1 e2
+    have : rep0 = 78 := by
+      have h' : repChar NUCLEOTIDS .ambig = some 78 := by decide
+      rw [h'] at h; simpa using h.symm
+    simp [repAt, this]
+  · intro e1; subst e1
+    have : rep0 = GAP := by simpa [repChar] using h.symm
+    simp [repAt, this]
+  · intro c e1; subst e1
+    have : rep0 = c := by simpa [repChar] using h.symm
+    simp [repAt, this]
+  · intro e1; subst e1
+    have : rep0 = POINT := by simpa [repChar] using h.symm
+    simp [repAt, this]
+
+/-! ## `MaskOccurences` / `MaskUnique`
+
+The model `Model.maskOccurences` mirrors the Go loop: per column an occurrence table keyed by row index,
+the `num <= maxOccurence && num > 0 && c != rep && c != GAP` test, the MAJ replacement carried from one
+column to the next.  `Gv.Spec.maskOccCell` states the outcome residue by residue (`occCounts`: which rows
+take part in the count — reference handling; `occSelected`: counted, not a gap, count ≤ threshold;
+`occRepAt`: the replacement of the column). -/
+
+/-- what a successful `MaskOccurences` returns: every row keeps its name, and residue `i` of a row is
+`maskOccCell` of that row, for every column `i < L` -/
+theorem maskOcc_result (rows : CRows) (L : Int) (alphabet : Nat) (refseq : String) (maxOcc : Int) (mr : MaskRep)
+    (out : CRows) (h : maskOccurences rows L alphabet refseq maxOcc mr = some out) :
+    ∃ rep0 refs, repChar alphabet mr = some rep0 ∧
+      (if refseq != "" then (rows.find? fun r => r.1 == refseq).map Prod.snd else some []) = some refs ∧
+      out = rows.map fun r => (r.1, (List.range L.toNat).map fun i => maskOccCell rows refseq refs maxOcc mr rep0 i r) :=
+  maskOccurences_closed rows L alphabet refseq maxOcc mr out h
+
+/-- `MaskOccurences` fails exactly on an unknown replacement mode (or AMBIG on an unknown alphabet) and on a
+reference name that is not in the alignment; the threshold never makes it fail -/
+theorem maskOcc_ok_iff (rows : CRows) (L : Int) (alphabet : Nat) (refseq : String) (maxOcc : Int) (mr : MaskRep) :
+    (maskOccurences rows L alphabet refseq maxOcc mr).isSome = true ↔
+      ((repChar alphabet mr).isSome = true ∧
+       ((refseq != "") = true → (rows.find? fun r => r.1 == refseq).isSome = true)) := by
+  unfold maskOccurences
+  cases hr : repChar alphabet mr with
+  | none => simp
+  | some rep0 =>
+    simp only []
+    by_cases hu : (refseq != "") = true
+    · simp only [hu, if_true]
+      cases hf : rows.find? (fun r => r.1 == refseq) <;> simp
+    · simp only [hu]
+      simp
+
+/-- an alignment in the sense of the model: every row has the cached length -/
+def Aligned (rows : CRows) (L : Int) : Prop := ∀ r ∈ rows, (r.2.length : Int) = L
+
+/-- **Frame: all names, the row order and the alignment length are unchanged** — the result has the same
+names in the same order and every row has length `L`; for an alignment (all rows of length `L`) every row
+keeps its own length. -/
+theorem maskOcc_frame_names_lengths (rows : CRows) (L : Int) (alphabet : Nat) (refseq : String) (maxOcc : Int)
+    (mr : MaskRep) (out : CRows) (h : maskOccurences rows L alphabet refseq maxOcc mr = some out) :
+    out.map Prod.fst = rows.map Prod.fst ∧ (∀ r ∈ out, r.2.length = L.toNat) ∧
+    (Aligned rows L → out.map (fun r => r.2.length) = rows.map (fun r => r.2.length)) := by
+  obtain ⟨rep0, refs, _, _, e⟩ := maskOcc_result _ _ _ _ _ _ _ h
+  subst e
+  refine ⟨by simp [List.map_map, Function.comp_def], ?_, ?_⟩
+  · intro r hr
+    obtain ⟨r0, _, e⟩ := List.mem_map.mp hr
+    subst e; simp
+  · intro ha
+    rw [List.map_map]
+    apply List.map_congr_left
+    intro r hr
+    have := ha r hr
+    simp only [Function.comp, List.length_map, List.length_range]
+    omega
+
+/-- **Frame and selection, residue by residue**: in column `i < L` the residue `c` of row `k` becomes the
+replacement character of the column if it is selected, and stays `c` otherwise. -/
+theorem maskOcc_cells (rows : CRows) (L : Int) (alphabet : Nat) (refseq : String) (maxOcc : Int)
+    (mr : MaskRep) (out : CRows) (h : maskOccurences rows L alphabet refseq maxOcc mr = some out) :
+    ∃ rep0 refs, repChar alphabet mr = some rep0 ∧
+      (if refseq != "" then (rows.find? fun r => r.1 == refseq).map Prod.snd else some []) = some refs ∧
+      ∀ (k i : Nat) (r : String × Seq), rows[k]? = some r → i < L.toNat →
+        ∃ r', out[k]? = some r' ∧ r'.1 = r.1 ∧
+          r'.2[i]? = some (if occSelected rows refseq refs maxOcc i r then occRepAt rows refseq refs mr rep0 i
+                           else r.2.getD i 0) := by
+  obtain ⟨rep0, refs, hrep, href, e⟩ := maskOcc_result _ _ _ _ _ _ _ h
+  subst e
+  refine ⟨rep0, refs, hrep, href, ?_⟩
+  intro k i r hk hi
+  refine ⟨(r.1, (List.range L.toNat).map fun i => maskOccCell rows refseq refs maxOcc mr rep0 i r),
+    by rw [List.getElem?_map, hk]; rfl, rfl, ?_⟩
+  simp only [List.getElem?_map, List.getElem?_range hi, Option.map_some]
+  rfl
+
+/-- **Which residues are selected**: the row takes part in the count (no reference given; or it is not
+the reference row and its residue differs from the reference residue or the reference has a gap there), the
+residue is not a gap, and it occurs at most `maxOcc` times among the residues that take part in the count
+of the column. -/
+theorem maskOcc_selected_exactly (rows : CRows) (refseq : String) (refs : Seq) (maxOcc : Int) (i : Nat) (x : String × Seq) :
+    occSelected rows refseq refs maxOcc i x = true ↔
+      ((refseq = "" ∨ (x.1 ≠ refseq ∧ (x.2.getD i 0 ≠ refs.getD i 0 ∨ refs.getD i 0 = GAP))) ∧
+       x.2.getD i 0 ≠ GAP ∧
+       ((occChars rows refseq refs i).count (x.2.getD i 0) : Int) ≤ maxOcc) := by
+  unfold occSelected occCounts
+  simp only [Bool.and_eq_true, Bool.or_eq_true, beq_iff_eq, bne_iff_ne, ne_eq, decide_eq_true_eq]
+  constructor
+  · rintro ⟨⟨a, b⟩, c⟩; exact ⟨a, b, c⟩
+  · rintro ⟨a, b, c⟩; exact ⟨⟨a, b⟩, c⟩
+
+private theorem sel_parts (rows : CRows) (refseq : String) (refs : Seq) (maxOcc : Int) (i : Nat) (x : String × Seq) :
+    occSelected rows refseq refs maxOcc i x = true ↔
+      occCounts refseq refs i x = true ∧ x.2.getD i 0 ≠ GAP ∧
+        ((occChars rows refseq refs i).count (x.2.getD i 0) : Int) ≤ maxOcc := by
+  unfold occSelected
+  simp only [Bool.and_eq_true, bne_iff_ne, ne_eq, decide_eq_true_eq, and_assoc]
+
+/-- a residue changes iff it is selected and differs from the replacement; it then becomes the replacement -/
+theorem maskOcc_changed_iff (rows : CRows) (refseq : String) (refs : Seq) (maxOcc : Int) (mr : MaskRep) (rep0 : Byte)
+    (i : Nat) (x : String × Seq) :
+    (maskOccCell rows refseq refs maxOcc mr rep0 i x ≠ x.2.getD i 0 ↔
+      occSelected rows refseq refs maxOcc i x = true ∧ x.2.getD i 0 ≠ occRepAt rows refseq refs mr rep0 i) ∧
+    (maskOccCell rows refseq refs maxOcc mr rep0 i x ≠ x.2.getD i 0 →
+      maskOccCell rows refseq refs maxOcc mr rep0 i x = occRepAt rows refseq refs mr rep0 i) := by
+  unfold maskOccCell
+  cases hs : occSelected rows refseq refs maxOcc i x
+  · simp
+  · simp only [↓reduceIte]
+    exact ⟨⟨fun h => ⟨by simp, fun e => h e.symm⟩, fun h e => h.2 e.symm⟩, fun _ => by simp⟩
+
+/-- **Reference handling and the other protected residues**: the reference row, residues equal to a
+non-gap reference residue, gaps, and residues more frequent than the threshold are never selected — hence
+(by `maskOcc_cells`) unchanged. -/
+theorem maskOcc_not_selected (rows : CRows) (refseq : String) (refs : Seq) (maxOcc : Int) (i : Nat) (x : String × Seq) :
+    (refseq ≠ "" → x.1 = refseq → occSelected rows refseq refs maxOcc i x = false) ∧
+    (refseq ≠ "" → x.2.getD i 0 = refs.getD i 0 → refs.getD i 0 ≠ GAP → occSelected rows refseq refs maxOcc i x = false) ∧
+    (x.2.getD i 0 = GAP → occSelected rows refseq refs maxOcc i x = false) ∧
+    (maxOcc < ((occChars rows refseq refs i).count (x.2.getD i 0) : Int) → occSelected rows refseq refs maxOcc i x = false) := by
+  refine ⟨?_, ?_, ?_, ?_⟩
+  · intro h1 h2
+    apply Bool.eq_false_iff.mpr
+    intro hs
+    obtain ⟨a, _, _⟩ := (maskOcc_selected_exactly _ _ _ _ _ _).mp hs
+    rcases a with a | ⟨a, _⟩
+    · exact h1 a
+    · exact a h2
+  · intro h1 h2 h3
+    apply Bool.eq_false_iff.mpr
+    intro hs
+    obtain ⟨a, _, _⟩ := (maskOcc_selected_exactly _ _ _ _ _ _).mp hs
+    rcases a with a | ⟨_, a | a⟩
+    · exact h1 a
+    · exact a h2
+    · exact h3 a
+  · intro h
+    apply Bool.eq_false_iff.mpr
+    intro hs
+    exact ((sel_parts _ _ _ _ _ _).mp hs).2.1 h
+  · intro h
+    apply Bool.eq_false_iff.mpr
+    intro hs
+    have := ((sel_parts _ _ _ _ _ _).mp hs).2.2
+    omega
+
+/-- the thresholds at both ends: with `maxOcc ≤ 0` nothing is selected; with `maxOcc ≥` the number of rows
+every counted non-gap residue is -/
+theorem maskOcc_threshold_extremes (rows : CRows) (refseq : String) (refs : Seq) (maxOcc : Int) (i : Nat) (x : String × Seq)
+    (hx : x ∈ rows) :
+    (maxOcc ≤ 0 → occSelected rows refseq refs maxOcc i x = false) ∧
+    ((rows.length : Int) ≤ maxOcc →
+      (occSelected rows refseq refs maxOcc i x = true ↔ occCounts refseq refs i x = true ∧ x.2.getD i 0 ≠ GAP)) := by
+  constructor
+  · intro h
+    apply Bool.eq_false_iff.mpr
+    intro hs
+    obtain ⟨a, _, c⟩ := (sel_parts _ _ _ _ _ _).mp hs
+    have := count_pos_of_counted rows refseq refs i x hx a
+    omega
+  · intro h
+    have h1 : (occChars rows refseq refs i).count (x.2.getD i 0) ≤ (occChars rows refseq refs i).length := List.count_le_length
+    have h2 : (occChars rows refseq refs i).length ≤ rows.length := by
+      unfold occChars; rw [List.length_map]; exact List.length_filter_le _ _
+    rw [sel_parts]
+    constructor
+    · rintro ⟨a, b, _⟩; exact ⟨a, b⟩
+    · rintro ⟨a, b⟩; exact ⟨a, b, by omega⟩
+
+/-- **The replacement character of `MaskOccurences` in every mode**: N / X by alphabet, a gap, the given
+character; for MAJ the most frequent residue *among the counted ones* of the column (lowest byte on ties)
+whenever the column has a counted residue the table can hold (otherwise nothing is selected there, or the
+residues lie outside the ASCII range of the property). -/
+theorem maskOcc_replacement_char (rows : CRows) (refseq : String) (refs : Seq) (alphabet : Nat) (mr : MaskRep) (rep0 : Byte)
+    (i : Nat) (h : repChar alphabet mr = some rep0) :
+    (mr ≠ .maj → occRepAt rows refseq refs mr rep0 i = rep0) ∧
+    (mr = .ambig → alphabet = AMINOACIDS → rep0 = 88) ∧ (mr = .ambig → alphabet = NUCLEOTIDS → rep0 = 78) ∧
+    (mr = .gap → rep0 = GAP) ∧ (∀ c, mr = .char c → rep0 = c) ∧
+    (mr = .maj → (∃ c ∈ occChars rows refseq refs i, c.toNat < 130) →
+      occRepAt rows refseq refs mr rep0 i = majorityChar (occChars rows refseq refs i) 0 ∧
+      occRepAt rows refseq refs mr rep0 i ∈ occChars rows refseq refs i ∧
+      (∀ c : Byte, c.toNat < 130 →
+        (occChars rows refseq refs i).count c ≤ (occChars rows refseq refs i).count (occRepAt rows refseq refs mr rep0 i)) ∧
+      (∀ c : Byte, c.toNat < 130 →
+        (occChars rows refseq refs i).count c = (occChars rows refseq refs i).count (occRepAt rows refseq refs mr rep0 i) →
+        occRepAt rows refseq refs mr rep0 i ≤ c)) := by
+  refine ⟨?_, ?_, ?_, ?_, ?_, ?_⟩
+  · intro hm
+    exact occRepAt_not_maj rows refseq refs mr rep0 (by simpa using hm) i
+  · intro e1 e2; subst e1 e2; simpa [repChar] using h.symm
+  · intro e1 e2; subst e1 e2
+    have h' : repChar NUCLEOTIDS .ambig = some 78 := by decide
+    rw [h'] at h; simpa using h.symm
+  · intro e1; subst e1; simpa [repChar] using h.symm
+  · intro c e1; subst e1; simpa [repChar] using h.symm
+  · intro e1 hex
+    subst e1
+    have e : occRepAt rows refseq refs .maj rep0 i = majorityChar (occChars rows refseq refs i) 0 := by
+      cases i with
+      | zero => simp only [occRepAt, beq_self_eq_true, if_true]; exact majorityChar_indep _ _ _ hex
+      | succ i => simp only [occRepAt, beq_self_eq_true, if_true]; exact majorityChar_indep _ _ _ hex
+    obtain ⟨a, _, c, d⟩ := majorityChar_spec _ 0 hex
+    rw [e]
+    exact ⟨rfl, a, c, d⟩
+
+/-- in a column without counted residue nothing is selected (so the carried MAJ value is never written) -/
+theorem maskOcc_empty_column (rows : CRows) (refseq : String) (refs : Seq) (maxOcc : Int) (i : Nat) (x : String × Seq)
+    (hx : x ∈ rows) (h : occChars rows refseq refs i = []) : occSelected rows refseq refs maxOcc i x = false := by
+  apply Bool.eq_false_iff.mpr
+  intro hs
+  have := count_pos_of_counted rows refseq refs i x hx ((sel_parts _ _ _ _ _ _).mp hs).1
+  rw [h] at this
+  simp at this
+
+/-- **`MaskUnique`** is `MaskOccurences` with threshold 1: a counted non-gap residue is selected iff no
+other counted residue of its column equals it -/
+theorem maskUnique_selected (rows : CRows) (L : Int) (alphabet : Nat) (refseq : String) (mr : MaskRep) (refs : Seq)
+    (i : Nat) (x : String × Seq) (hx : x ∈ rows) :
+    maskUnique rows L alphabet refseq mr = maskOccurences rows L alphabet refseq 1 mr ∧
+    (occSelected rows refseq refs 1 i x = true ↔
+      occCounts refseq refs i x = true ∧ x.2.getD i 0 ≠ GAP ∧ (occChars rows refseq refs i).count (x.2.getD i 0) = 1) := by
+  refine ⟨rfl, ?_⟩
+  rw [sel_parts]
+  constructor
+  · rintro ⟨a, b, c⟩
+    have := count_pos_of_counted rows refseq refs i x hx a
+    exact ⟨a, b, by omega⟩
+  · rintro ⟨a, b, c⟩
+    exact ⟨a, b, by omega⟩
+
 /-! ## non-vacuity -/
 
 example : mask [("a", [65, 45, 67, 71]), ("b", [65, 65, 67, 84])] 4 1 "a" 1 9 .ambig true true
     = some [("a", [65, 45, 67, 71]), ("b", [65, 78, 67, 78])] := by decide
+
+
+-- `MaskOccurences`: reference `r` = ACGT-; threshold 1; row `c`'s `T` (col 0) and `A` (col 4, facing a gap of
+-- the reference) are unique among the counted residues and masked; `G` in column 1 occurs twice and stays
+example : maskOccurences [("r", [65, 67, 71, 84, 45]), ("b", [65, 71, 71, 84, 67]), ("c", [84, 71, 71, 84, 65])] 5 1 "r" 1 .ambig
+    = some [("r", [65, 67, 71, 84, 45]), ("b", [65, 71, 71, 84, 78]), ("c", [78, 71, 71, 84, 78])] := by decide
+example : Aligned [("r", [65, 67, 71, 84, 45]), ("b", [65, 71, 71, 84, 67]), ("c", [84, 71, 71, 84, 65])] 5 := by
+  intro r hr; simp at hr; rcases hr with rfl | rfl | rfl <;> rfl
+-- MAJ without reference: column `A, C, C, G` → the unique `A` and `G` become the majority `C`
+set_option maxRecDepth 100000 in
+example : maskUnique [("a", [65]), ("b", [67]), ("c", [67]), ("d", [71])] 1 1 "" .maj
+    = some [("a", [67]), ("b", [67]), ("c", [67]), ("d", [67])] := by decide
+set_option maxRecDepth 100000 in
+example : ∃ c ∈ occChars [("a", [65]), ("b", [67]), ("c", [67]), ("d", [71])] "" [] 0, c.toNat < 130 := ⟨65, by decide, by decide⟩
+set_option maxRecDepth 100000 in
+example : majorityChar [65, 67, 67, 65] 0 = 65 := by decide   -- tie: lowest byte
 
 end Gv.Props.C15
